@@ -135,7 +135,7 @@ class ElfL(Layout):
         ps = self.ps
         self.img = Image(rng, ps)
         voffs = VOFFS64 if self.elfclass == 64 else VOFFS32
-        self.mode = ["pages", "bytes", "straddle", "pages"][seq % 4]
+        self.mode = ["pages", "bytes", "straddle", "tail"][seq % 4]
         top = rng.choice([12, 24, 40])
         segs, p = [], rng.randint(0, 3)
         while p < top:
@@ -157,6 +157,19 @@ class ElfL(Layout):
                 filesz = rng.choice([memsz, memsz, memsz - 0x20, memsz // 3])
                 out.append(dict(paddr=pa, filesz=filesz, memsz=memsz))
                 pa += memsz + rng.choice([0, 0, 0x10, 0x7f0, ps, 3 * ps + 0x20])
+            segs = out
+        elif self.mode == "tail":
+            # a segment whose zero-filled tail (memsz > filesz) runs over a page boundary and ends inside a page in
+            # which the next segment begins
+            out, pa = [], rng.randint(0, 3) * ps + rng.choice([0, 0x300, ps // 2])
+            for _ in range(rng.randint(2, 4)):
+                filesz = rng.choice([0x800, ps // 2 + 0x123, ps, ps + 0x40, 0])
+                memsz = filesz + ps * rng.randint(1, 2) + rng.choice([0x400, 0x123, ps // 2, 8])
+                out.append(dict(paddr=pa, filesz=filesz, memsz=memsz))
+                pa += memsz + rng.choice([0, 0, 0x10, 0x100])
+                n = rng.choice([ps // 4, ps, ps + 0x80])
+                out.append(dict(paddr=pa, filesz=n, memsz=n))
+                pa += n + rng.choice([0, 0x20, ps, 2 * ps + 0x20])
             segs = out
         # virtual layout: blocks of segments in different regions so that virtual order != physical order
         for s in segs:
@@ -351,7 +364,15 @@ class LkL(Layout):
         pfns = []
         for _ in range(rng.randint(1, 4)):
             pfns += runs_to_list(rand_runs(rng, rng.choice([30, 60, 5000]), start=rng.randint(0, 40)))[:rng.randint(3, 25)]
-        if seq % 2 == 0:
+        self.big = seq % 6 == 5
+        if self.big:
+            # a file larger than one file-cache window (4 MiB) of raw pages at unaligned offsets: some page data straddles
+            # the window boundary
+            self.ps = ps = 4096
+            self.img = Image(rng, ps)
+            self.far, self.read_order = "none", 0
+            pfns = list(range(rng.randint(0, 9), rng.randint(1080, 1200)))
+        elif seq % 2 == 0:
             # back-fill pattern: a run with a hole, then the frame right below the run, a far frame, then the hole
             b = rng.randint(20, 45)
             pat = [b, b + 1, b + rng.randint(4, 9), b - 1, b + rng.choice([40, 200, 5000]), b + rng.randint(2, 3)]
@@ -380,7 +401,8 @@ class LkL(Layout):
         self.order_pfns = order
         stream = []
         for p in order:
-            rec = dict(pfn=p, data=self.img.page(p), kind=rng.choice(["auto", "auto", "auto", "raw", "compressed"]))
+            rec = dict(pfn=p, data=self.img.page(p), kind="raw" if self.big and rng.random() < 0.95 else
+                       rng.choice(["auto", "auto", "auto", "raw", "compressed"]))
             if rec["kind"] == "compressed" and self.compression and self.version >= 5 or rec["kind"] == "compressed" and self.version < 5:
                 c = dumpgen.rle_encode(rec["data"]) if (self.compression == 1 or self.version < 5) else zlib.compress(rec["data"])
                 if len(c) + rec.get("skip", 0) > ps:      # a page that does not fit the compressed-data buffer is stored raw
